@@ -372,11 +372,18 @@ class Fn:
                     lk = dstr(strip(e['l']))
                     constdesc[lk] = strip(e['l'])
                     facts.add((('const', lk), const_value(e['r'])))
+                if sensitive and e['k'] == 'decl' and e.get('init') is not None and \
+                        const_value(e['init']) is not None and not e.get('static'):
+                    constdesc[e['n']] = {'k': 'var', 'n': e['n'], 'vk': 'local'}
+                    facts.add((('const', e['n']), const_value(e['init'])))
                 if require is not None and require not in facts:
                     return 'blocked', e
             return 'through', None
 
         constdesc = {}
+        for it in (init_facts or ()):
+            if it[0].__class__ is tuple:
+                constdesc[it[0][1]] = {'k': 'var', 'n': it[0][1], 'vk': 'local'}
 
         def contradicts(ef, fs):
             key, pol, atom = ef
